@@ -4,7 +4,7 @@
 From Coq Require Import List NArith Extraction ExtrOcamlBasic.
 From Coq.Strings Require Import Byte.
 From LMBase Require Import Res ListX.
-From LMEncode Require Import EncodeModel GenAbc EncodeInst.
+From LMEncode Require Import EncodeModel GenAbc EncodeInst EncodeMem.
 
 Definition byte_to_N := Byte.to_N.
 
@@ -16,4 +16,5 @@ Extraction "encode_model.ml"
   encode_spec check_C05 check_C05_display outcome_eqb
   pipeline_encode_raw pipeline_encode_into encoded_sequence_encode all_pipelines
   pipeline_kernel dispatch_kernel
-  display to_string.
+  display to_string
+  pipeline_encode_into_at pipeline_encode_raw_at window_outcome guards_unchanged.
